@@ -10,7 +10,7 @@ import (
 
 func init() {
 	props["C09"] = c09
-	floors["C09"] = map[string]int{"C09.R1": 3, "C09.R2": 8, "C09.R3": 10, "C09.R4": 4, "C09.R5": 7}
+	floors["C09"] = map[string]int{"C09.R1": 3, "C09.R2": 8, "C09.R3": 10, "C09.R4": 7, "C09.R5": 8}
 }
 
 // anyFlowMu reports whether some lock whose path ends in ".flowMu" is held.
@@ -261,134 +261,209 @@ func c09(r *Report) {
 		}
 	})
 
-	r.Guard("C09.R4", "new credit wakes queued data: every window increase is followed by an emission attempt over the affected buffers", func() {
-		uw := r.Use("h2", "relay.updateWindow")
-		ui := r.Use("h2", "relay.updateInitialWindowSize")
-		sq := r.Use("h2", "relay.sendQueuedFramesUnderWindowSize")
-		if uw == nil || ui == nil || sq == nil {
+	r.Guard("C09.R4", "new credit wakes queued data: every window increase is followed by an emission attempt over the affected buffers", func() { flowWakeRules(r) })
+
+	r.Guard("C09.R5", "the receiver's maximum frame size bounds every payload the relay builds", func() { frameSizeRules(r) })
+
+}
+
+// flowWakeRules: every window increase is applied and followed by an emission
+// attempt (shared by C09.R4 and C08.R8).
+func flowWakeRules(r *Report) {
+	w := r.W
+	pf := r.Use("h2", "relay.processFrame")
+	if pf == nil {
+		return
+	}
+	uw := r.Use("h2", "relay.updateWindow")
+	ui := r.Use("h2", "relay.updateInitialWindowSize")
+	sq := r.Use("h2", "relay.sendQueuedFramesUnderWindowSize")
+	if uw == nil || ui == nil || sq == nil {
+		return
+	}
+	incr := func(f *ssa.Function, field string) []ssa.Instruction {
+		var out []ssa.Instruction
+		for _, in := range instrs(f) {
+			st, ok := in.(*ssa.Store)
+			if !ok {
+				continue
+			}
+			if fa, ok := st.Addr.(*ssa.FieldAddr); ok && fieldObj(fa).Name() == field {
+				out = append(out, st)
+			}
+		}
+		return out
+	}
+	check := func(f *ssa.Function, field, callee, key string) {
+		stores := incr(f, field)
+		if len(stores) == 0 {
+			r.Fail("path", key, "the window is no longer updated here", nil, f.Pos())
 			return
 		}
-		incr := func(f *ssa.Function, field string) []ssa.Instruction {
-			var out []ssa.Instruction
+		g := G(f)
+		for _, s := range stores {
+			p := g.PathTo([]ssa.Instruction{s}, false, func(i ssa.Instruction) bool { _, ok := isCall(i, callee); return ok }, isExit)
+			r.Paths++
+			r.Decide("path", key, p == nil, "every path from the update to the return calls "+callee, "the window grows but nothing tries to emit the frames queued behind it: data the receiver has credit for stays stranded", s.Pos())
+		}
+	}
+	check(ui, "initialWindowSize", "(*M/h2.relay).sendQueuedFramesUnderWindowSize", "(*M/h2.relay).updateInitialWindowSize: all buffers re-examined after the change")
+	check(uw, "connectionWindowSize", "(*M/h2.relay).sendQueuedFramesUnderWindowSize", "(*M/h2.relay).updateWindow: all buffers re-examined after a connection-window increase")
+	check(uw, "windowSize", "(*M/h2.outputBuffer).emitEligibleFrames", "(*M/h2.relay).updateWindow: the stream's buffer re-examined after a stream-window increase")
+	// every WINDOW_UPDATE increment is applied to a window (a stream that has no buffer yet gets one)
+	{
+		g := G(uw)
+		isApply := func(i ssa.Instruction) bool {
+			st, ok := i.(*ssa.Store)
+			if !ok {
+				return false
+			}
+			fa, ok := st.Addr.(*ssa.FieldAddr)
+			if !ok || (fieldObj(fa).Name() != "windowSize" && fieldObj(fa).Name() != "connectionWindowSize") {
+				return false
+			}
+			return anyIn(w.backSlice(st.Val, flowOpt{BinOps: true}), func(v ssa.Value) bool {
+				f, y := v.(*ssa.FieldAddr)
+				return y && fieldObj(f).Name() == "Increment"
+			})
+		}
+		p := g.PathTo([]ssa.Instruction{g.Entry()}, true, isApply, isExit)
+		r.Paths++
+		if p != nil {
+			r.Fail("path", "(*M/h2.relay).updateWindow: every increment is applied to a window", "a WINDOW_UPDATE can be dropped (for example for a stream the relay has not queued anything on yet): the stream later runs with less window than the receiver granted and its data is stranded", witness(w, p), uw.Pos())
+		} else {
+			r.Hold("path", "(*M/h2.relay).updateWindow: every increment is applied to a window", "every path adds f.Increment to the stream or the connection window", uw.Pos())
+		}
+		// the stream's buffer is obtained through the creating accessor
+		okAcc := false
+		for _, c := range plainCalls(uw, "(*M/h2.relay).outputBuffer") {
+			if anyIn(w.backSlice(c.Call.Args[1], flowOpt{}), func(v ssa.Value) bool { f, y := v.(*ssa.FieldAddr); return y && fieldObj(f).Name() == "StreamID" }) {
+				okAcc = true
+			}
+		}
+		r.Decide("flow", "(*M/h2.relay).updateWindow: the stream's buffer comes from outputBuffer(f.StreamID)", okAcc, "created on demand", "the update bypasses the accessor that creates a stream's buffer on demand", uw.Pos())
+	}
+	// sendQueuedFramesUnderWindowSize visits every buffer
+	ok := false
+	for _, c := range plainCalls(sq, "(*M/h2.outputBuffer).emitEligibleFrames") {
+		if inLoop(c.Block()) && anyIn(w.backSlice(c.Call.Args[0], flowOpt{}), func(v ssa.Value) bool {
+			n, isN := v.(*ssa.Next)
+			if !isN {
+				return false
+			}
+			rg, isR := n.Iter.(*ssa.Range)
+			return isR && anyIn(w.backSlice(rg.X, flowOpt{}), func(x ssa.Value) bool {
+				fa, y := x.(*ssa.FieldAddr)
+				return y && fieldObj(fa).Name() == "outputBuffers"
+			})
+		}) {
+			ok = true
+		}
+	}
+	r.Decide("path", "(*M/h2.relay).sendQueuedFramesUnderWindowSize: ranges over every output buffer", ok, "emitEligibleFrames for each element of outputBuffers", "not every stream's queue is examined", sq.Pos())
+	// the dispatcher routes WINDOW_UPDATE and the window-related settings to the peer relay
+	okS := 0
+	for _, f := range append([]*ssa.Function{pf}, pf.AnonFuncs...) {
+		for _, n := range []string{"(*M/h2.relay).updateInitialWindowSize", "(*M/h2.relay).updateMaxFrameSize", "(*M/h2.relay).updateWindow", "(*M/h2.relay).updateTableSize"} {
+			for _, c := range plainCalls(f, n) {
+				if anyIn(w.backSlice(c.Call.Args[0], flowOpt{}), func(v ssa.Value) bool { fa, y := v.(*ssa.FieldAddr); return y && fieldObj(fa).Name() == "peer" }) {
+					okS++
+				}
+			}
+		}
+	}
+	r.Decide("flow", "(*M/h2.relay).processFrame: WINDOW_UPDATE and window/frame-size/table-size settings are applied to the peer relay", okS == 4, "four updates routed to r.peer", fmt.Sprintf("%d of 4 updates reach the peer relay", okS), pf.Pos())
+}
+
+// frameSizeRules: payloads are bounded by the receiver's maximum frame size
+// (shared by C09.R5 and C08.R8).
+func frameSizeRules(r *Report) {
+	w := r.W
+	for _, name := range []string{"relay.data", "relay.header", "relay.pushPromise"} {
+		f := r.Use("h2", name)
+		if f == nil {
+			continue
+		}
+		loads := plainCalls(f, "sync/atomic.LoadUint32")
+		var max ssa.Value
+		for _, l := range loads {
+			if fa, ok := l.Call.Args[0].(*ssa.FieldAddr); ok && fieldObj(fa).Name() == "maxFrameSize" {
+				max = l
+			}
+		}
+		r.Decide("flow", fmt.Sprintf("(*M/h2.%s): loads maxFrameSize atomically", name), max != nil, "atomic.LoadUint32(&r.maxFrameSize)", "the builder does not consult the receiver's maximum frame size", f.Pos())
+		if max == nil {
+			continue
+		}
+		if name == "relay.data" {
+			// the payload slice is sized by min(len(data), max)
+			ok := false
 			for _, in := range instrs(f) {
-				st, ok := in.(*ssa.Store)
-				if !ok {
+				mk, isMk := in.(*ssa.MakeSlice)
+				if !isMk {
 					continue
 				}
-				if fa, ok := st.Addr.(*ssa.FieldAddr); ok && fieldObj(fa).Name() == field {
-					out = append(out, st)
+				sl := w.backSlice(mk.Len, flowOpt{})
+				if !anyIn(sl, func(v ssa.Value) bool { return v == max }) {
+					continue
 				}
-			}
-			return out
-		}
-		check := func(f *ssa.Function, field, callee, key string) {
-			stores := incr(f, field)
-			if len(stores) == 0 {
-				r.Fail("path", key, "the window is no longer updated here", nil, f.Pos())
-				return
-			}
-			g := G(f)
-			for _, s := range stores {
-				p := g.PathTo([]ssa.Instruction{s}, false, func(i ssa.Instruction) bool { _, ok := isCall(i, callee); return ok }, isExit)
-				r.Paths++
-				r.Decide("path", key, p == nil, "every path from the update to the return calls "+callee, "the window grows but nothing tries to emit the frames queued behind it: data the receiver has credit for stays stranded", s.Pos())
-			}
-		}
-		check(ui, "initialWindowSize", "(*M/h2.relay).sendQueuedFramesUnderWindowSize", "(*M/h2.relay).updateInitialWindowSize: all buffers re-examined after the change")
-		check(uw, "connectionWindowSize", "(*M/h2.relay).sendQueuedFramesUnderWindowSize", "(*M/h2.relay).updateWindow: all buffers re-examined after a connection-window increase")
-		check(uw, "windowSize", "(*M/h2.outputBuffer).emitEligibleFrames", "(*M/h2.relay).updateWindow: the stream's buffer re-examined after a stream-window increase")
-		// sendQueuedFramesUnderWindowSize visits every buffer
-		ok := false
-		for _, c := range plainCalls(sq, "(*M/h2.outputBuffer).emitEligibleFrames") {
-			if inLoop(c.Block()) && anyIn(w.backSlice(c.Call.Args[0], flowOpt{}), func(v ssa.Value) bool {
-				n, isN := v.(*ssa.Next)
-				if !isN {
-					return false
-				}
-				rg, isR := n.Iter.(*ssa.Range)
-				return isR && anyIn(w.backSlice(rg.X, flowOpt{}), func(x ssa.Value) bool { fa, y := x.(*ssa.FieldAddr); return y && fieldObj(fa).Name() == "outputBuffers" })
-			}) {
-				ok = true
-			}
-		}
-		r.Decide("path", "(*M/h2.relay).sendQueuedFramesUnderWindowSize: ranges over every output buffer", ok, "emitEligibleFrames for each element of outputBuffers", "not every stream's queue is examined", sq.Pos())
-		// the dispatcher routes WINDOW_UPDATE and the window-related settings to the peer relay
-		okS := 0
-		for _, f := range append([]*ssa.Function{pf}, pf.AnonFuncs...) {
-			for _, n := range []string{"(*M/h2.relay).updateInitialWindowSize", "(*M/h2.relay).updateMaxFrameSize", "(*M/h2.relay).updateWindow", "(*M/h2.relay).updateTableSize"} {
-				for _, c := range plainCalls(f, n) {
-					if anyIn(w.backSlice(c.Call.Args[0], flowOpt{}), func(v ssa.Value) bool { fa, y := v.(*ssa.FieldAddr); return y && fieldObj(fa).Name() == "peer" }) {
-						okS++
-					}
-				}
-			}
-		}
-		r.Decide("flow", "(*M/h2.relay).processFrame: WINDOW_UPDATE and window/frame-size/table-size settings are applied to the peer relay", okS == 4, "four updates routed to r.peer", fmt.Sprintf("%d of 4 updates reach the peer relay", okS), pf.Pos())
-	})
-
-	r.Guard("C09.R5", "the receiver's maximum frame size bounds every payload the relay builds", func() {
-		for _, name := range []string{"relay.data", "relay.header", "relay.pushPromise"} {
-			f := r.Use("h2", name)
-			if f == nil {
-				continue
-			}
-			loads := plainCalls(f, "sync/atomic.LoadUint32")
-			var max ssa.Value
-			for _, l := range loads {
-				if fa, ok := l.Call.Args[0].(*ssa.FieldAddr); ok && fieldObj(fa).Name() == "maxFrameSize" {
-					max = l
-				}
-			}
-			r.Decide("flow", fmt.Sprintf("(*M/h2.%s): loads maxFrameSize atomically", name), max != nil, "atomic.LoadUint32(&r.maxFrameSize)", "the builder does not consult the receiver's maximum frame size", f.Pos())
-			if max == nil {
-				continue
-			}
-			if name == "relay.data" {
-				// the payload slice is sized by min(len(data), max)
-				ok := false
-				for _, in := range instrs(f) {
-					mk, isMk := in.(*ssa.MakeSlice)
-					if !isMk {
+				// a comparison n > max whose true edge selects max
+				for v := range sl {
+					phi, isPhi := v.(*ssa.Phi)
+					if !isPhi {
 						continue
 					}
-					sl := w.backSlice(mk.Len, flowOpt{})
-					if !anyIn(sl, func(v ssa.Value) bool { return v == max }) {
-						continue
-					}
-					// a comparison n > max whose true edge selects max
-					for v := range sl {
-						phi, isPhi := v.(*ssa.Phi)
-						if !isPhi {
-							continue
-						}
-						for _, e := range phi.Edges {
-							if e == max || unwrapConv(e) == max {
-								for _, in2 := range instrs(f) {
-									b, isB := in2.(*ssa.BinOp)
-									if isB && (b.Op == token.GTR && unwrapConv(b.Y) == max || b.Op == token.LSS && unwrapConv(b.X) == max) {
-										ok = true
-									}
+					for _, e := range phi.Edges {
+						if e == max || unwrapConv(e) == max {
+							for _, in2 := range instrs(f) {
+								b, isB := in2.(*ssa.BinOp)
+								if isB && (b.Op == token.GTR && unwrapConv(b.Y) == max || b.Op == token.LSS && unwrapConv(b.X) == max) {
+									ok = true
 								}
 							}
 						}
 					}
 				}
-				r.Decide("flow", "(*M/h2.relay.data): payload length clamped to the maximum frame size", ok, "make size is min(len(data), max)", "DATA payloads are not clamped to the receiver's maximum frame size", f.Pos())
-			} else {
-				ok := false
-				for _, c := range plainCalls(f, "M/h2.splitIntoChunks") {
-					a0 := anyIn(w.backSlice(c.Call.Args[0], flowOpt{BinOps: true}), func(v ssa.Value) bool { return v == max })
-					a1 := anyIn(w.backSlice(c.Call.Args[1], flowOpt{BinOps: true}), func(v ssa.Value) bool { return v == max })
-					ok = a0 && a1
-				}
-				r.Decide("flow", fmt.Sprintf("(*M/h2.%s): header block split by the maximum frame size", name), ok, "both chunk limits derive from maxFrameSize", "header chunks are not bounded by the receiver's maximum frame size", f.Pos())
 			}
+			r.Decide("flow", "(*M/h2.relay.data): payload length clamped to the maximum frame size", ok, "make size is min(len(data), max)", "DATA payloads are not clamped to the receiver's maximum frame size", f.Pos())
+		} else {
+			if name == "relay.header" {
+				// the 5 priority octets are deducted exactly when the framer writes them:
+				// x/net's Framer.WriteHeaders emits them iff !Priority.IsZero()
+				okP := false
+				for _, in := range instrs(f) {
+					b, isB := in.(*ssa.BinOp)
+					if !isB || b.Op != token.SUB {
+						continue
+					}
+					if n, isC := constInt(b.Y); !isC || n != 5 {
+						continue
+					}
+					var conds []string
+					for _, c := range ctrlConds(b.Block()) {
+						if !strings.Contains(c, "nil:error") { // early error returns are not part of the decision
+							conds = append(conds, c)
+						}
+					}
+					if len(conds) == 1 && strings.Contains(conds[0], "PriorityParam).IsZero(") && strings.HasSuffix(conds[0], "=false") {
+						okP = true
+					}
+				}
+				r.Decide("path", "(*M/h2.relay.header): the priority octets are deducted exactly when !priority.IsZero()", okP, "same condition as x/net's Framer.WriteHeaders", "the first fragment's size limit ignores (or wrongly assumes) the 5 priority octets the framer adds whenever the priority is non-zero: HEADERS frames can exceed the receiver's maximum frame size", f.Pos())
+			}
+			ok := false
+			for _, c := range plainCalls(f, "M/h2.splitIntoChunks") {
+				a0 := anyIn(w.backSlice(c.Call.Args[0], flowOpt{BinOps: true}), func(v ssa.Value) bool { return v == max })
+				a1 := anyIn(w.backSlice(c.Call.Args[1], flowOpt{BinOps: true}), func(v ssa.Value) bool { return v == max })
+				ok = a0 && a1
+			}
+			r.Decide("flow", fmt.Sprintf("(*M/h2.%s): header block split by the maximum frame size", name), ok, "both chunk limits derive from maxFrameSize", "header chunks are not bounded by the receiver's maximum frame size", f.Pos())
 		}
-		um := r.Use("h2", "relay.updateMaxFrameSize")
-		if um != nil {
-			r.Decide("lookup", "(*M/h2.relay).updateMaxFrameSize stores atomically", len(plainCalls(um, "sync/atomic.StoreUint32")) == 1, "atomic.StoreUint32", "the limit is written non-atomically while builders read it", um.Pos())
-		}
-	})
+	}
+	um := r.Use("h2", "relay.updateMaxFrameSize")
+	if um != nil {
+		r.Decide("lookup", "(*M/h2.relay).updateMaxFrameSize stores atomically", len(plainCalls(um, "sync/atomic.StoreUint32")) == 1, "atomic.StoreUint32", "the limit is written non-atomically while builders read it", um.Pos())
+	}
 }
 
 func unwrapConv(v ssa.Value) ssa.Value {
